@@ -160,7 +160,9 @@ pub fn check(property: &str, tier: Tier) -> i32 {
         eprintln!("hx: no check registered for {property}");
         return 2;
     };
-    let deadline_ms = now_ms() + plan.wall_s * 1000;
+    // HX_WALL_SCALE: development aid for loaded machines (the registered commands do not set it)
+    let scale: u64 = std::env::var("HX_WALL_SCALE").ok().and_then(|s| s.parse().ok()).unwrap_or(1);
+    let deadline_ms = now_ms() + plan.wall_s * 1000 * scale;
     let mut queue: VecDeque<Unit> = VecDeque::new();
     let mut total = 0u64;
     for (ji, job) in plan.jobs.iter_mut().enumerate() {
@@ -391,7 +393,7 @@ pub struct Known {
 impl Known {
     pub fn load() -> Known {
         let mut entries = vec![];
-        if let Ok(s) = std::fs::read_to_string(format!("{}/known_findings.jsonl", "/verif")) {
+        if let Ok(s) = std::fs::read_to_string(format!("{}/known_findings.jsonl", verif_dir())) {
             for l in s.lines() {
                 let l = l.trim();
                 if l.is_empty() || l.starts_with('#') {
